@@ -55,6 +55,11 @@ func (d *Decoder) read(buf []byte) {
 		return
 	}
 
+	if len(buf) == 0 {
+		// nothing to read; bytes.Reader reports EOF even for an empty read at the end of data
+		return
+	}
+
 	n, err := d.buf.Read(buf)
 	if err != nil {
 		d.unread(n)
